@@ -109,6 +109,13 @@ class BGPLS(NLRI):
         # RFC 7911 ADD-PATH is possible for BGP-LS but not yet implemented
         # TODO: implement addpath support when negotiated.addpath.send(AFI.bgpls, self.safi)
         # Wire format: [type(2)][length(2)][payload] - _packed includes header
+        route_d = getattr(self, 'route_d', None)
+        if route_d:
+            # bgp-ls-vpn: unpack_nlri took the route distinguisher out of the wire bytes (it is
+            # kept beside them), it goes back between the header and the payload, and the
+            # length covers it
+            code, length = unpack('!HH', bytes(self._packed[:4]))
+            return pack('!HH', code, length + 8) + bytes(route_d.pack_rd()) + bytes(self._packed[4:])
         return self._packed
 
     def index(self) -> bytes:
